@@ -1,6 +1,6 @@
 (* C12 - executable model of Potassco::TheoryData (src/theory_data.cpp, potassco/theory_data.h),
-   after the repairs bac2265 (FuncData freed when setTerm refuses), b553e6b, c8d69a9 (symbol copied before
-   setTerm) and 7625ba8 (new element built before the old one is freed).
+   after the repairs bac2265 (FuncData freed when setTerm refuses), dcb2b38, 4c76fde (symbol copied before
+   setTerm) and fe607fc (new element built before the old one is freed).
 
    Concrete state
      terms / elems : the two id-indexed RawStacks as sparse vectors: (size, association id -> cell);
@@ -115,7 +115,7 @@ Definition addTermNum (id n : Z) (s : st) : Z * st :=
   | Err e => (e, s)
   end.
 
-(* addTerm(id, const StringSpan&) after c8d69a9: char* buf = new char[..]; copy the name;
+(* addTerm(id, const StringSpan&) after 4c76fde: char* buf = new char[..]; copy the name;
    try { return setTerm(id) = TheoryTerm(buf); } catch (...) { delete [] buf; throw; }
    - the copy is made BEFORE setTerm() frees the term being replaced (the name may be that term's own symbol) *)
 Definition addTermSym (id : Z) (b : list Z) (s : st) : Z * st :=
@@ -148,7 +148,7 @@ Definition addTermComp (id base : Z) (args : list Z) (s : st) : Z * st :=
 Definition removeTermOp (id : Z) (s : st) : Z * st :=
   match removeTerm id s with Ok s1 => (0, s1) | Err e => (e, s) end.
 
-(* addElement after 7625ba8: push / redefinition check; TheoryElement* e = newElement(terms, cId);
+(* addElement after fe607fc: push / redefinition check; TheoryElement* e = newElement(terms, cId);
    DestroyT()(elems()[id]) (a null pointer - the id was not in use - is left alone); elems()[id] = e
    - the new element is built BEFORE the old one is freed (terms may be the old element's own span) *)
 Definition addElement (id : Z) (ts : list Z) (c : Z) (s : st) : Z * st :=
